@@ -275,6 +275,29 @@ def run_columns(ctx):
                 st["samples"].append({"path": v["path"], "size": v["size"], "sha1": v["sha1"], "line_count": v["line_count"], "ext": v["ext"], "modified": v["modified"]})
         if good:
             st["ok"] += len(rows)
+        # the same metadata columns under the root option `symlinks`: an entry that is a link still reports ITS OWN lstat
+        # attributes (following links decides what is entered, not what an entry is)
+        scols = ["path", "size", "mode", "is_symlink", "is_file", "is_dir", "inode", "hardlinks", "uid", "gid"]
+        srows, sr = qlib.select(ctx.impl, ", ".join(scols), "from %s symlinks" % os.path.basename(root), cwd=ctx.scratch)
+        st["n"] += 1
+        scase = {"tree": root, "query": sr["query"]}
+        if srows is None or sr["status"] != 0:
+            ctx.violation("impl-violates-spec", "column query with `symlinks` failed: status %s stderr %r" % (sr["status"], sr["stderr"][:200]), input=scase)
+        else:
+            for row in srows:
+                v = dict(zip(scols, row))
+                try:
+                    ls = os.lstat(os.path.join(ctx.scratch, v["path"]))
+                except OSError:
+                    continue
+                exp = {"size": str(ls.st_size), "mode": stat.filemode(ls.st_mode), "is_symlink": "true" if stat.S_ISLNK(ls.st_mode) else "false", "is_file": "true" if stat.S_ISREG(ls.st_mode) else "false",
+                       "is_dir": "true" if stat.S_ISDIR(ls.st_mode) else "false", "inode": str(ls.st_ino), "hardlinks": str(ls.st_nlink), "uid": str(ls.st_uid), "gid": str(ls.st_gid)}
+                bad = [(k, v[k], e) for k, e in exp.items() if v[k] != e]
+                if bad:
+                    ctx.violation("impl-violates-spec", "with `symlinks`, entry %r: column %s is %r, lstat says %r" % (v["path"], bad[0][0], bad[0][1], bad[0][2]), input=scase, all_mismatches=bad[:6])
+                    break
+            else:
+                st["ok"] += len(srows)
     # extension classes under a configuration file that overrides each list
     home = os.path.join(ctx.scratch, "cfg_home")
     os.makedirs(os.path.join(home, ".config", "fselect"))
@@ -436,7 +459,7 @@ def run(ctx):
     m = run_modes(ctx)
     c = run_columns(ctx)
     ctx.coverage["columns_part"] = dict(queries=c["n"], entries_checked=c["ok"], files_with_capabilities_checked_against_getcap=c.get("capability_files", 0), extension_verdicts_equal_to_regenerated_has_extension=c.get("ext_model_agreed", 0), distinct_entries=len(c["distinct"]), samples=c["samples"],
-                                        rule="random trees (files with contents: empty, shebang, no trailing newline, binary, > 64 KiB, 9000 newlines, newline-rich contents of 40 KB - 250 KB whose length is not a multiple of a read block; mtimes incl. 0 and 2038+; owners without a name; xattrs; sockets; links incl. dangling; dot-files, several dots, upper-case extensions) - columns path,name,ext,dir,abspath,absdir,size,uid,gid,user,group,inode,hardlinks,blocks,modified,is_hidden,is_empty, the eight extension classes (default lists read from config.rs, and a configuration file overriding every list with plain, compound and dot-less endings), sha1/sha256/sha512/sha3, line_count, is_shebang, has_xattrs, capabilities / has_capabilities() / has_capability(c) for the 41 Linux capabilities x flag combinations, in the plain and in the namespaced (revision 3) form of the attribute, against getcap, CONTAINS(s) with needles inside a line and across line breaks compared with os.lstat, pwd/grp, hashlib and the directory contents; the content columns of a link to a regular file (directly or through a second link) are those of the file")
+                                        rule="random trees (files with contents: empty, shebang, no trailing newline, binary, > 64 KiB, 9000 newlines, newline-rich contents of 40 KB - 250 KB whose length is not a multiple of a read block; mtimes incl. 0 and 2038+; owners without a name; xattrs; sockets; links incl. dangling; dot-files, several dots, upper-case extensions) - columns path,name,ext,dir,abspath,absdir,size,uid,gid,user,group,inode,hardlinks,blocks,modified,is_hidden,is_empty, the eight extension classes (default lists read from config.rs, and a configuration file overriding every list with plain, compound and dot-less endings), sha1/sha256/sha512/sha3, line_count, is_shebang, has_xattrs, capabilities / has_capabilities() / has_capability(c) for the 41 Linux capabilities x flag combinations, in the plain and in the namespaced (revision 3) form of the attribute, against getcap, CONTAINS(s) with needles inside a line and across line breaks compared with os.lstat, pwd/grp, hashlib and the directory contents; the metadata columns again under the root option `symlinks` (a link entry keeps its own lstat attributes); the content columns of a link to a regular file (directly or through a second link) are those of the file")
     ctx.coverage.update(
         evaluations=m["evaluations"] + c["ok"], distinct_nontrivial=m["distinct"] + len(c["distinct"]),
         traces_validated_against_impl=m["agreed"],
